@@ -39,6 +39,9 @@ SpellFails(ev) ==
     \cup (IF ~SameMass(ev.avg, Micro(10)) THEN {"spellings_disagree_on_average_mass"} ELSE {})
     \cup (IF ~SameComp(ev.comp) THEN {"spellings_disagree_on_composition"} ELSE {})
     \cup (IF ~SameMass(ev.pep, Micro(10)) THEN {"spellings_disagree_on_peptide_mass"} ELSE {})
+    (* an entry whose table row has a composition (even the empty one) has a composition in every spelling *)
+    \cup (IF row.db \in {"unimod", "psimod"} /\ row.tabCompKnown /\ \E q \in 1..Len(ev.comp) : ev.comp[q].out # "ret"
+          THEN {"entry_with_a_tabulated_composition_has_no_composition"} ELSE {})
     (* the entry resolves to its own table row: tabulated monoisotopic mass *)
     \cup (IF row.hasMono /\ \E q \in 1..Len(ev.mono) : ev.mono[q].out = "ret" /\ ~FWithin(ev.mono[q].v, row.mono, Micro(10))
           THEN {"resolved_mass_is_not_the_rows_mass"} ELSE {})
